@@ -8,7 +8,6 @@ import (
 	"reflect"
 	"sort"
 	"strings"
-	"sync"
 
 	"go.uber.org/dig"
 
@@ -236,12 +235,10 @@ func BuildSig(s Sig) interface{} {
 	}).Interface()
 }
 
-var (
-	sigCbMu    sync.Mutex
-	sigCbNames []string // callback names that differ from the designated function
-)
+// sigLocTarget is the function LocationForPC designates in the "real" cases.
+func sigLocTarget() {}
 
-func sigProvideOpts(o SigOpts) []dig.ProvideOption {
+func sigProvideOpts(o SigOpts, sink *[]string) []dig.ProvideOption {
 	var opts []dig.ProvideOption
 	if o.Name != "" {
 		opts = append(opts, dig.Name(o.Name))
@@ -255,21 +252,19 @@ func sigProvideOpts(o SigOpts) []dig.ProvideOption {
 	case "pc1":
 		opts = append(opts, dig.LocationForPC(1))
 	case "real":
-		opts = append(opts, dig.LocationForPC(reflect.ValueOf(sigProvideOpts).Pointer()))
+		opts = append(opts, dig.LocationForPC(reflect.ValueOf(sigLocTarget).Pointer()))
 	}
 	if o.Cb {
 		want := "reflect.makeFuncStub"
 		if o.Loc == "real" {
-			want = "verif/harness/run.sigProvideOpts" // the function LocationForPC designates
+			want = "verif/harness/run.sigLocTarget" // the function LocationForPC designates
 		}
 		opts = append(opts, dig.WithProviderCallback(func(ci dig.CallbackInfo) {
 			if ci.Error != nil {
 				_ = ci.Error.Error()
 			}
-			if (o.Loc == "" || o.Loc == "real") && ci.Name != want {
-				sigCbMu.Lock()
-				sigCbNames = append(sigCbNames, fmt.Sprintf("callback Name want %q got %q", want, ci.Name))
-				sigCbMu.Unlock()
+			if (o.Loc == "" || o.Loc == "real") && ci.Name != want && sink != nil {
+				*sink = append(*sink, fmt.Sprintf("callback Name want %q got %q", want, ci.Name))
 			}
 		}))
 	}
@@ -501,6 +496,7 @@ func TestSig(l *SigLine) []SigDiv {
 		wantOutD = append(wantOutD, renderR(r))
 	}
 	val := BuildSig(l.S)
+	var cbNames []string // callback names that differ from the designated function
 	for state := 0; state < 3; state++ {
 		// Provide
 		{
@@ -514,7 +510,7 @@ func TestSig(l *SigLine) []SigDiv {
 			var pi dig.ProvideInfo
 			pi.ID = -12345
 			_, crash := guard(func() {
-				perr = a.Provide(val, append(sigProvideOpts(l.O), dig.FillProvideInfo(&pi))...)
+				perr = a.Provide(val, append(sigProvideOpts(l.O, &cbNames), dig.FillProvideInfo(&pi))...)
 			})
 			if crash != "" {
 				add("crash", fmt.Sprintf("Provide panicked (state %d): %s", state, crash))
@@ -584,7 +580,22 @@ func TestSig(l *SigLine) []SigDiv {
 			}
 			var consume interface{}
 			if derr == nil && len(l.Frd) > 0 {
-				consume = consumerOf(l.Frd)
+				// a decorator returns a group as the whole slice: its consumers ask for the
+				// element type (as a plain slice and as named slice types)
+				frd := append([]SigR(nil), l.Frd...)
+				for i := range frd {
+					if frd[i].Grp != "" {
+						switch frd[i].Ty {
+						case "sT0", "NS":
+							frd[i].Ty = "T0"
+						case "sI0":
+							frd[i].Ty = "I0"
+						case "ssT0":
+							frd[i].Ty = "sT0"
+						}
+					}
+				}
+				consume = consumerOf(frd)
 			}
 			followUp(c, a, consume, add, fmt.Sprintf("after Decorate (state %d)", state))
 		}
@@ -624,11 +635,8 @@ func TestSig(l *SigLine) []SigDiv {
 			followUp(c, a, nil, add, fmt.Sprintf("after Invoke (state %d)", state))
 		}
 	}
-	sigCbMu.Lock()
-	for _, n := range sigCbNames {
+	for _, n := range cbNames {
 		add("cb.name", n)
 	}
-	sigCbNames = nil
-	sigCbMu.Unlock()
 	return ds
 }
